@@ -7,6 +7,7 @@ import (
 	"strings"
 	"sync/atomic"
 
+	"github.com/antonmedv/expr"
 	"github.com/antonmedv/expr/ast"
 	"github.com/antonmedv/expr/file"
 	"github.com/antonmedv/expr/parser"
@@ -422,9 +423,36 @@ var c12PosTokens = []struct {
 	{"(", lexer.Bracket, "(", true}, {")", lexer.Bracket, ")", true}, {"[", lexer.Bracket, "[", true}, {"]", lexer.Bracket, "]", true}, {"{", lexer.Bracket, "{", true}, {"}", lexer.Bracket, "}", true},
 }
 
-var c12WS = []string{" ", "", "\t", "\n", " \n  ", "\r", "\r\n", "\u00a0", "\f\v"}
+var c12WS = []string{" ", "", "\t", "\n", " \n  ", "\r", "\r\n", "\u00a0", "\f\v", " \u00a0\u3000"}
+
+// c12Hold: the tokens returned for one source are the caller's: lexing, parsing or compiling another source afterwards
+// must not change them.
+func c12Hold(r *report.Run, evals *int64, orderBase int64) {
+	srcs := []string{"'héllo' +\n  name", "0x1F * (a ?. b)", "[1, 2.5e-3, \"s\"]", "not in", "a", "f(x, y) ? 1 : 2", "{k: #}", "1..3 in xs"}
+	for i, a := range srcs {
+		for j, b := range srcs {
+			if i == j {
+				continue
+			}
+			ta, err := lexSafe(a)
+			if err != nil {
+				continue
+			}
+			before := fmt.Sprint(ta)
+			lexSafe(b)
+			parseSafe(b)
+			expr.Compile(b)
+			atomic.AddInt64(evals, 1)
+			if after := fmt.Sprint(ta); after != before {
+				r.Report(report.Violation{Sub: "tokens", Kind: "changed-by-a-later-lex", Witness: fmt.Sprintf("%q then %q", a, b), Order: orderBase + int64(i*10+j), Detail: map[string]interface{}{"before": before, "after": after}})
+				return
+			}
+		}
+	}
+}
 
 func c12Positions(r *report.Run, evals *int64, orderBase int64) int64 {
+	c12Hold(r, evals, orderBase-1000)
 	nt := len(c12PosTokens)
 	var cases int64
 	check := func(idx []int, ws []int, order int64) {
